@@ -3,12 +3,41 @@
 #ifndef TETL_TYPE_TRAITS_MAKE_SIGNED_HPP
 #define TETL_TYPE_TRAITS_MAKE_SIGNED_HPP
 
+#include <etl/_type_traits/conditional.hpp>
+
 namespace etl {
 
 namespace detail {
 
-template <typename>
-struct make_signed;
+/// Character and enumeration types: the signed integer type of least rank with the same size.
+template <typename T>
+struct make_signed {
+    using type = conditional_t<
+        sizeof(T) == sizeof(signed char),
+        signed char,
+        conditional_t<
+            sizeof(T) == sizeof(signed short),
+            signed short,
+            conditional_t<
+                sizeof(T) == sizeof(signed int),
+                signed int,
+                conditional_t<sizeof(T) == sizeof(signed long), signed long, signed long long>>>>;
+};
+
+template <typename T>
+struct make_signed<T const> {
+    using type = typename make_signed<T>::type const;
+};
+
+template <typename T>
+struct make_signed<T volatile> {
+    using type = typename make_signed<T>::type volatile;
+};
+
+template <typename T>
+struct make_signed<T const volatile> {
+    using type = typename make_signed<T>::type const volatile;
+};
 
 template <>
 struct make_signed<signed char> {
